@@ -25,7 +25,8 @@ ASSUMPTIONS = [
     "evaluates before all labels exist (width inference, *=, @=, :=, .if, .for bounds, macro arguments)",
     "unjudged: a name defined twice in one scope; evaluation-time dependent uses (.if over a name that is re-defined later)",
 ]
-WEIGHTS = dict(block=4, scope=2.5, label=5, data=6, ins=2, assign=2, sym=1.5, macro=1, call=2.5, for_=1.2, if_=0.5, org=0.2, reloc=0.1, ascii=0.2, branch=0.0)
+WEIGHTS = dict(block=4, scope=2.5, label=5, data=6, ins=2, assign=2, sym=1.5, macro=1, call=2.5, for_=1.2, if_=0.5, org=0.2, reloc=0.1, ascii=0.2, branch=0.0,
+               table=0.2, text=0.4, incbin=0.25, include=0.3, include_ips=0.15)      # every statement kind appears, the rare ones rarely
 
 
 def plan(tier: str, seed: int) -> list[dict]:
